@@ -262,6 +262,13 @@ FAMILY = [
     # 12: terms that print alike but are different terms (an atom spelled like a compound term, a number, a list, a variable)
     ('p', (A('f(a)'), ('f', 'f', A('a')), A('1'), ('n', '1'), A('[]'), ('l',), A('x1')),
      ('and', ('call', 'q', ('f', 'f', A('a')), A('f(a)'), ('_', 0)), ('call', 'r', ('n', '1'), A('1'), ('l',), A('[]'), A('g(X)'), ('f', 'g', V('X'))))),
+    # 13-18: predicates of one program that call each other, some committed by cuts (what a whole-program analysis would look at)
+    ('first', (V('X'),), ('and', ('call', 'q', V('X')), ('cut',))),
+    ('pick', (V('X'),), ('call', 'first', V('X'))),
+    ('user', (V('X'), V('Y')), ('and', ('call', 'r', V('Y')), ('call', 'pick', V('X')))),
+    ('det', (V('X'),), ('and', ('call', 'a', V('X')), ('cut',))),
+    ('det', (V('X'),), ('and', ('call', 'b', V('Y')), ('call', 'first', V('X')))),
+    ('big', (A('k'), V('X')), ('and', ('call', 'a', V('X')), ('and', ('cut',), ('call', 'b', V('X'))))),
 ]
 
 
@@ -346,6 +353,110 @@ def rule_clause_scope(cm, rep, rid):
         else:
             rep.ok(rid, key, '%d source variables, each defined once before use' % len(srcvars), f.loc())
     rep.minimum('sample clauses evaluated', n, 8)
+
+
+def rule_term_code_denotes_term(cm, rep, rid):
+    rep.rule(rid, 'the code compile_expression gives for a term constructs that very term and nothing is looked up elsewhere: '
+                  'atom(<the name>) / functor(<name>, [..]) / makelist([..]) / listpair(h, t) / the number / the variable of '
+                  'that name (ATOM_NIL for []) - a name that has to be resolved somewhere else (a module constant, a table) is '
+                  'reported, since two different terms may then be given one name; decided on the terms of the sample clauses')
+    lab = ClauseLab(cm)
+    f = cm.comp.methods['compile_expression']
+
+    def denote(code):
+        k = lab.kind(code)
+        a = lab.ctor_args(code) if isinstance(code, New) else []
+        if k == 'YPCodeVar':
+            n = lab.text(a[0])
+            return ('a', '[]') if n == 'ATOM_NIL' else ('v', n)
+        if k == 'YPCodeValue':
+            return ('n', lab.text(a[0]))
+        if k == 'YPCodeCall':
+            fn = lab.text(a[0])
+            args = lab.sx.as_sequence(a[1]) if len(a) > 1 else None
+            if args is None:
+                return ('?', 'call of %s with %r' % (fn, a[1:] and a[1]))
+            if fn == 'atom' and len(args) == 1 and lab.kind(args[0]) == 'YPCodeExpr':
+                return ('a', lab.text(lab.ctor_args(args[0])[0]))
+            if fn == 'functor' and len(args) == 2 and lab.kind(args[0]) == 'YPCodeExpr' and lab.kind(args[1]) == 'YPCodeList':
+                items = lab.sx.as_sequence(lab.ctor_args(args[1])[0])
+                if items is not None:
+                    return ('f', lab.text(lab.ctor_args(args[0])[0])) + tuple(denote(x) for x in items)
+            if fn == 'makelist' and len(args) == 1 and lab.kind(args[0]) == 'YPCodeList':
+                items = lab.sx.as_sequence(lab.ctor_args(args[0])[0])
+                if items is not None:
+                    return ('l',) + tuple(denote(x) for x in items)
+            if fn == 'listpair' and len(args) == 2:
+                return ('lp', denote(args[0]), denote(args[1]))
+            return ('?', 'call of %s' % fn)
+        return ('?', repr(code)[:40])
+
+    def want(t):
+        k = t[0]
+        if k == 'v':
+            return ('v', t[1])
+        if k == '_':
+            return ('v', 'x%d' % (t[1] + 1))
+        if k == 'a':
+            return ('a', t[1])
+        if k == 'n':
+            return ('n', t[1])
+        if k == 'f':
+            return ('f', t[1]) + tuple(want(x) for x in t[2:])
+        if k == 'l':
+            return ('l',) + tuple(want(x) for x in t[1:]) if len(t) > 1 else ('a', '[]')
+        if k == 'lp':
+            return ('lp', want(t[1]), want(t[2]))
+        raise AssertionError(t)
+
+    def unknown(d):
+        if d[0] == '?':
+            return d[1]
+        for x in d[1:]:
+            if isinstance(x, tuple):
+                u = unknown(x)
+                if u:
+                    return u
+        return None
+
+    def strip_vars(d, names):
+        # variable names may be decorated by the compiler, consistently
+        if d[0] == 'v':
+            return ('v', names.setdefault(d[1], len(names)))
+        return tuple(strip_vars(x, names) if isinstance(x, tuple) else x for x in d)
+    terms = []
+
+    def collect_body(b):
+        if b[0] == 'call':
+            terms.extend(b[2:])
+        elif b[0] in ('and', 'or', 'ifthen', 'not'):
+            for y in b[1:]:
+                collect_body(y)
+    for c in FAMILY:
+        terms.extend(c[1])
+        collect_body(c[2])
+    seen = set()
+    n = 0
+    for t in terms:
+        if t in seen or t[0] == '_':
+            continue
+        seen.add(t)
+        n += 1
+        key = 'term:%s' % show(('', (t,), ('true',)))[1:].split(' :-')[0][:-1]
+        try:
+            st2, code = lab.call('compile_expression', [lab.term(t)])
+        except AnalysisError as e:
+            rep.violation(rid, key, 'compile_expression cannot be evaluated on this term: %s' % e, f.loc())
+            continue
+        got = denote(code)
+        if unknown(got):
+            rep.violation(rid, key, 'the code for this term is not a construction of the term (%s)' % unknown(got), f.loc())
+        elif strip_vars(got, {}) != strip_vars(want(t), {}):
+            rep.violation(rid, key, 'the code for this term constructs %r: a different term, or a name that is resolved elsewhere in '
+                          'place of the term itself' % (got,), f.loc())
+        else:
+            rep.ok(rid, key, 'constructs the term itself', f.loc())
+    rep.minimum('sample terms', n, 15)
 
 
 def rule_clause_head(cm, rep, rid):
@@ -441,6 +552,8 @@ PROGRAMS = [
     [(('p', 6), [4, 4]), (('p', 3), [2])],
     [(('p', 2), [10, 0, 11, 1])],
     [(('p', 7), [12, 12])],
+    [(('first', 1), [13]), (('pick', 1), [14]), (('user', 2), [15]), (('det', 1), [16, 17])],
+    [(('big', 2), [18] * 60), (('first', 1), [13])],
 ]
 
 
